@@ -1,6 +1,450 @@
-use crate::common::U;
-use bridge::rt::Run;
+//! Evolution histories: C03 (every writer/reader version pair gives the documented outcome) and
+//! the (w, r) parts of C07 (self-delimiting) and C08 (truncation).
+use crate::common::{self, U};
+use bridge::dynrec::{dyn_decode, dyn_decode_rest, dyn_encode};
+use bridge::rt::{hex, par_items, val_json, Run, Stats};
+use bridge::{ErrKind, Out, Sink};
+use refmodel::evo::{self, EvoErr, History};
+use refmodel::spec;
+use refmodel::values::{values, Params};
+use refmodel::*;
+use serde_json::json;
+use std::sync::Arc;
 
-pub fn extra_for(_prop: &str, _run: &mut Run, _u: &U) -> i32 {
+#[derive(Clone, Copy, Debug, PartialEq, Eq)]
+enum Place {
+    Top,
+    OuterV0,
+    OuterEvolved,
+    InVec,
+}
+
+const PLACES: [Place; 4] = [Place::Top, Place::OuterV0, Place::OuterEvolved, Place::InVec];
+
+fn fld(name: &str, ty: Ty) -> FieldDescr {
+    FieldDescr { name: name.into(), is_option: matches!(ty, Ty::Opt(_)), ty, transient: None, default: None }
+}
+
+fn place_ty(p: Place, inner: Ty) -> Ty {
+    match p {
+        Place::Top => inner,
+        Place::OuterV0 => Ty::Record(Arc::new(RecordDescr {
+            name: "OuterV0".into(),
+            steps: vec![],
+            fields: vec![fld("pre", Ty::U8), fld("x", inner), fld("post", Ty::U16)],
+        })),
+        Place::OuterEvolved => {
+            let mut q = fld("q", Ty::Str);
+            q.default = Some(Val::s("qd"));
+            Ty::Record(Arc::new(RecordDescr {
+                name: "OuterEv".into(),
+                steps: vec![Step::Added("q".into())],
+                fields: vec![fld("pre", Ty::U8), fld("x", inner), q, fld("post", Ty::U16)],
+            }))
+        }
+        Place::InVec => Ty::Tuple(vec![Ty::Seq(SeqKind::Vec, Box::new(inner)), Ty::U16]),
+    }
+}
+
+fn place_val(p: Place, inner: &[Val]) -> Val {
+    match p {
+        Place::Top => inner[0].clone(),
+        Place::OuterV0 => Val::Rec(vec![Val::U(0xaa), inner[0].clone(), Val::U(0xbbcc)]),
+        Place::OuterEvolved => Val::Rec(vec![Val::U(0xaa), inner[0].clone(), Val::s("Q"), Val::U(0xbbcc)]),
+        Place::InVec => Val::Tuple(vec![Val::Seq(inner.to_vec()), Val::U(0xbbcc)]),
+    }
+}
+
+fn err_matches(exp: &EvoErr, got: &ErrKind) -> bool {
+    match (exp, got) {
+        (EvoErr::FieldRemoved(f), ErrKind::FieldRemovedInSerializedVersion(g)) => f == g,
+        (EvoErr::SerializedAsNone(f), ErrKind::NonOptionalFieldSerializedAsNone(g)) => f == g,
+        _ => false,
+    }
+}
+
+fn model_err_matches(exp: &EvoErr, got: &DecErr) -> bool {
+    match (exp, got) {
+        (EvoErr::FieldRemoved(f), DecErr::FieldRemoved(g)) => f == g,
+        (EvoErr::SerializedAsNone(f), DecErr::SerializedAsNone(g)) => f == g,
+        _ => false,
+    }
+}
+
+fn hist_label(h: &History) -> String {
+    let base: Vec<String> = h.base.iter().map(|b| format!("{}:{}", b.name, bridge::rt::ty_name(&b.ty))).collect();
+    let steps: Vec<String> = h
+        .steps
+        .iter()
+        .map(|s| match s {
+            evo::HStep::Add { name, ty, first, .. } => {
+                format!("Add({name}:{}{})", bridge::rt::ty_name(ty), if *first { ",first" } else { "" })
+            }
+            evo::HStep::MakeOptional(n) => format!("Opt({n})"),
+            evo::HStep::Remove(n) => format!("Rm({n})"),
+            evo::HStep::MakeTransient { name, .. } => format!("Tr({name})"),
+        })
+        .collect();
+    format!("[{}] {}", base.join(","), steps.join("."))
+}
+
+struct Item {
+    /// index in the list of histories
+    hi: usize,
+    w: usize,
+    r: usize,
+}
+
+fn small_params(thorough: bool) -> Params {
+    Params { leaf_k: if thorough { 4 } else { 3 }, seq_len: 1, elem_k: 2, cap: if thorough { 48 } else { 24 }, rec_depth: 1 }
+}
+
+/// one (history, w, r): all values of version w, all placements, through the dynamic driver
+fn explore_dyn(prop: &str, h: &History, hi: usize, w: usize, r: usize, st: &mut Stats, thorough: bool, only: &Option<String>) {
+    let dw = h.decl_at(w);
+    let dr = h.decl_at(r);
+    let tw = Ty::Record(Arc::new(dw));
+    let tr = Ty::Record(Arc::new(dr));
+    let vals = values(&tw, &small_params(thorough));
+    let label = hist_label(h);
+    for (vi, v) in vals.iter().enumerate() {
+        let expected = h.expected(w, r, v);
+        for p in PLACES {
+            let key = format!("dyn:{hi}/w{w}/r{r}/v{vi}/{p:?}");
+            if let Some(k) = only {
+                if *k != key {
+                    continue;
+                }
+            }
+            st.states += 1;
+            let gap = p != Place::Top && h.framing_gap(w, r);
+            // second element of the vector placement: the next value of the domain
+            let inner: Vec<Val> = if p == Place::InVec { vec![v.clone(), vals[(vi + 1) % vals.len()].clone()] } else { vec![v.clone()] };
+            let exp_all: Result<Vec<Val>, EvoErr> = inner.iter().map(|x| h.expected(w, r, x)).collect();
+            let ow = place_ty(p, tw.clone());
+            let or = place_ty(p, tr.clone());
+            let wv = place_val(p, &inner);
+            let enc = dyn_encode(&ow, &wv);
+            st.transitions += 1;
+            let mut bad = |st: &mut Stats, what: &str, cls: String, detail: serde_json::Value| {
+                st.violate(
+                    format!("{prop} {what} history={label} w={w} r={r} place={p:?} outcome={cls}"),
+                    key.clone(),
+                    json!({"history": label, "w": w, "r": r, "placement": format!("{p:?}"), "value": val_json(v), "expected": format!("{expected:?}").chars().take(300).collect::<String>(), "detail": detail}),
+                );
+            };
+            let bytes = match enc {
+                Out::Ok(b) => b,
+                o => {
+                    bad(st, "writer-fails", o.class(), json!({"result": format!("{o:?}")}));
+                    continue;
+                }
+            };
+            // the model writes the same bytes
+            st.validated += 1;
+            match ref_encode(&ow, &wv) {
+                Ok(mb) if mb.b == bytes => {}
+                other => {
+                    bad(st, "writer-bytes-differ-from-model", "Ok".into(), json!({"library": hex(&bytes), "model": other.map(|b| hex(&b.b)).map_err(|e| format!("{e:?}"))}));
+                    continue;
+                }
+            }
+            match prop {
+                "C03" => {
+                    let got = dyn_decode(&or, &bytes);
+                    st.transitions += 1;
+                    if gap {
+                        // DESIGN section 9: no expected value; executed for totality only
+                        st.bump("excluded(section 9)");
+                        if got.is_panic() {
+                            bad(st, "panic-in-excluded-combination", "Panic".into(), json!({"bytes": hex(&bytes), "result": format!("{got:?}")}));
+                        }
+                        continue;
+                    }
+                    st.validated += 1;
+                    let model = ref_decode(&or, &bytes);
+                    match &exp_all {
+                        Ok(xs) => {
+                            let ev = place_val(p, xs);
+                            let ok = matches!(&got, Out::Ok(g) if canon(&or, g) == canon(&or, &ev));
+                            if !ok {
+                                bad(st, "wrong-outcome", got.class(), json!({"bytes": hex(&bytes), "got": format!("{got:?}").chars().take(400).collect::<String>(), "expected_value": val_json(&ev)}));
+                                continue;
+                            }
+                            if !matches!(&model, Ok((m, n)) if canon(&or, m) == canon(&or, &ev) && (*n == bytes.len() || h.framing_gap(w, r))) {
+                                bad(st, "model-reader-disagrees-with-oracle", "Ok".into(), json!({"bytes": hex(&bytes), "model": format!("{model:?}").chars().take(300).collect::<String>()}));
+                                continue;
+                            }
+                            st.bump(if w == r { "same-version" } else if xs[0] == inner[0] { "cross:identity" } else { "cross:converted" });
+                            st.nontrivial += (w != r) as u64;
+                        }
+                        Err(e) => {
+                            let ok = matches!(&got, Out::Err(g) if err_matches(e, g));
+                            if !ok {
+                                bad(st, "wrong-error", got.class(), json!({"bytes": hex(&bytes), "got": format!("{got:?}").chars().take(300).collect::<String>()}));
+                                continue;
+                            }
+                            if !matches!(&model, Err(me) if model_err_matches(e, me)) {
+                                bad(st, "model-reader-disagrees-with-oracle", "Err".into(), json!({"bytes": hex(&bytes), "model": format!("{model:?}").chars().take(300).collect::<String>()}));
+                                continue;
+                            }
+                            st.bump(match e {
+                                EvoErr::FieldRemoved(_) => "cross:FieldRemoved",
+                                EvoErr::SerializedAsNone(_) => "cross:SerializedAsNone",
+                            });
+                            st.nontrivial += 1;
+                        }
+                    }
+                    if vi == 0 && p == Place::OuterEvolved && w != r {
+                        st.sample(json!({"history": label, "w": w, "r": r, "value": val_json(v), "bytes": hex(&bytes), "expected": format!("{expected:?}")}));
+                    }
+                }
+                "C07" => {
+                    // exact consumption: stored version >= 1, or version 0 without removals
+                    if h.framing_gap(w, r) || exp_all.is_err() {
+                        st.bump("not-claimed");
+                        continue;
+                    }
+                    let ev = place_val(p, exp_all.as_ref().unwrap());
+                    for s in [vec![], vec![0x01], vec![0xff; 5], bytes.iter().copied().take(16).collect::<Vec<u8>>()] {
+                        let mut input = bytes.clone();
+                        input.extend_from_slice(&s);
+                        let (got, rest) = dyn_decode_rest(&or, &input);
+                        st.transitions += 1;
+                        st.validated += 1;
+                        let ok = matches!(&got, Out::Ok(g) if canon(&or, g) == canon(&or, &ev)) && rest.as_deref() == Some(&s[..]);
+                        if !ok {
+                            bad(st, "not-self-delimiting", got.class(), json!({"encoding": hex(&bytes), "suffix": hex(&s), "unread": rest.map(|r| hex(&r)), "got": format!("{got:?}").chars().take(300).collect::<String>()}));
+                            break;
+                        }
+                        st.bump("exact");
+                    }
+                    st.nontrivial += (w != r) as u64;
+                }
+                "C08" => {
+                    if w == 0 && w != r {
+                        st.bump("not-claimed(version 0 under another definition)");
+                        continue;
+                    }
+                    for k in 0..bytes.len() {
+                        let got = dyn_decode(&or, &bytes[..k]);
+                        st.transitions += 1;
+                        st.validated += 1;
+                        if !matches!(got, Out::Err(_)) {
+                            bad(st, "prefix-not-rejected", got.class(), json!({"encoding": hex(&bytes), "cut": k, "got": format!("{got:?}").chars().take(300).collect::<String>()}));
+                            break;
+                        }
+                        st.bump("Err");
+                    }
+                    st.nontrivial += (w != r) as u64;
+                }
+                _ => unreachable!(),
+            }
+        }
+    }
+}
+
+/// compiled histories: derived types, top level plus a trailing sentinel
+fn explore_compiled(prop: &str, u: &U, hi: usize, w: usize, r: usize, st: &mut Stats, thorough: bool, only: &Option<String>) {
+    let h = &u.spec.histories[hi];
+    let ew = u.get(&u.spec.hist_decl[hi][w]);
+    let er = u.get(&u.spec.hist_decl[hi][r]);
+    let label = hist_label(h);
+    let vals = values(&ew.ty, &small_params(thorough));
+    for (vi, v) in vals.iter().enumerate() {
+        let key = format!("derived:{hi}/w{w}/r{r}/v{vi}");
+        if let Some(k) = only {
+            if *k != key {
+                continue;
+            }
+        }
+        st.states += 1;
+        let expected = h.expected(w, r, v);
+        let mut bad = |st: &mut Stats, what: &str, cls: String, detail: serde_json::Value| {
+            st.violate(
+                format!("{prop} derived {what} history={label} w={w} r={r} outcome={cls}"),
+                key.clone(),
+                json!({"history": label, "writer_type": ew.name, "reader_type": er.name, "value": val_json(v), "expected": format!("{expected:?}").chars().take(300).collect::<String>(), "detail": detail}),
+            );
+        };
+        let enc = &(ew.enc)(v, &[Sink::ToByteVec])[0];
+        st.transitions += 1;
+        let bytes = match &enc.out {
+            Out::Ok(b) => b.clone(),
+            o => {
+                bad(st, "writer-fails", o.class(), json!({"result": format!("{o:?}")}));
+                continue;
+            }
+        };
+        // derived impl == dynamic driver on the writer side
+        let dynb = dyn_encode(&ew.ty, v);
+        st.validated += 1;
+        if dynb != Out::Ok(bytes.clone()) {
+            bad(st, "derived-and-dynamic-driver-bytes-differ", "Ok".into(), json!({"derived": hex(&bytes), "driver": format!("{dynb:?}")}));
+            continue;
+        }
+        match prop {
+            "C03" => {
+                let sentinel = [0xaau8, 0xbb];
+                let mut input = bytes.clone();
+                input.extend_from_slice(&sentinel);
+                let d = (er.dec_ctx)(&input);
+                st.transitions += 1;
+                st.validated += 1;
+                let gap = h.framing_gap(w, r);
+                match &expected {
+                    Ok(ev) => {
+                        let ok = matches!(&d.out, Out::Ok(g) if canon(&er.ty, g) == canon(&er.ty, ev));
+                        if !ok {
+                            bad(st, "wrong-outcome", d.out.class(), json!({"bytes": hex(&bytes), "got": format!("{:?}", d.out).chars().take(400).collect::<String>()}));
+                            continue;
+                        }
+                        if !gap && d.rest.as_deref() != Some(&sentinel[..]) {
+                            bad(st, "following-data-disturbed", "Ok".into(), json!({"bytes": hex(&bytes), "unread": d.rest.as_ref().map(|r| hex(r))}));
+                            continue;
+                        }
+                        st.bump(if w == r { "same-version" } else { "cross:value" });
+                    }
+                    Err(e) => {
+                        let ok = matches!(&d.out, Out::Err(g) if err_matches(e, g));
+                        if !ok {
+                            bad(st, "wrong-error", d.out.class(), json!({"bytes": hex(&bytes), "got": format!("{:?}", d.out).chars().take(300).collect::<String>()}));
+                            continue;
+                        }
+                        st.bump("cross:error");
+                    }
+                }
+                // derived reader == dynamic driver reader
+                let dd = dyn_decode(&er.ty, &bytes);
+                let same = match (&d.out, &dd) {
+                    (Out::Ok(a), Out::Ok(b)) => canon(&er.ty, a) == canon(&er.ty, b),
+                    (Out::Err(a), Out::Err(b)) => a == b,
+                    _ => false,
+                };
+                st.validated += 1;
+                if !same {
+                    bad(st, "derived-and-dynamic-driver-results-differ", d.out.class(), json!({"bytes": hex(&bytes), "derived": format!("{:?}", d.out).chars().take(200).collect::<String>(), "driver": format!("{dd:?}").chars().take(200).collect::<String>()}));
+                    continue;
+                }
+                st.nontrivial += (w != r) as u64;
+                if vi == 0 && w != r {
+                    st.sample(json!({"derived_history": label, "writer": ew.name, "reader": er.name, "bytes": hex(&bytes), "expected": format!("{expected:?}")}));
+                }
+            }
+            "C07" => {
+                if h.framing_gap(w, r) || expected.is_err() {
+                    st.bump("not-claimed");
+                    continue;
+                }
+                let ev = expected.as_ref().unwrap();
+                for s in crate::p_values::suffixes(&bytes) {
+                    let mut input = bytes.clone();
+                    input.extend_from_slice(&s);
+                    let d = (er.dec_ctx)(&input);
+                    st.transitions += 1;
+                    st.validated += 1;
+                    let ok = matches!(&d.out, Out::Ok(g) if canon(&er.ty, g) == canon(&er.ty, ev)) && d.rest.as_deref() == Some(&s[..]);
+                    if !ok {
+                        bad(st, "not-self-delimiting", d.out.class(), json!({"encoding": hex(&bytes), "suffix": hex(&s), "unread": d.rest.as_ref().map(|r| hex(r))}));
+                        break;
+                    }
+                    st.bump("exact");
+                }
+                st.nontrivial += (w != r) as u64;
+            }
+            "C08" => {
+                if w == 0 && w != r {
+                    st.bump("not-claimed(version 0 under another definition)");
+                    continue;
+                }
+                for k in 0..bytes.len() {
+                    let d = (er.dec)(&bytes[..k]);
+                    st.transitions += 1;
+                    st.validated += 1;
+                    if !matches!(d.out, Out::Err(_)) {
+                        bad(st, "prefix-not-rejected", d.out.class(), json!({"encoding": hex(&bytes), "cut": k, "got": format!("{:?}", d.out).chars().take(300).collect::<String>()}));
+                        break;
+                    }
+                    st.bump("Err");
+                }
+                st.nontrivial += (w != r) as u64;
+            }
+            _ => unreachable!(),
+        }
+    }
+}
+
+pub fn dyn_histories(thorough: bool) -> (Vec<History>, usize) {
+    let depth = if thorough { 4 } else { 3 };
+    let all = evo::enumerate("D", &spec::history_bases(), &spec::history_add_types(), depth, true);
+    (evo::maximal(&all, depth), depth)
+}
+
+fn pairs(len: usize) -> Vec<(usize, usize)> {
+    let mut v = Vec::new();
+    for w in 0..=len {
+        for r in 0..=len {
+            v.push((w, r));
+        }
+    }
+    v
+}
+
+/// run the evolution exploration for `prop` and merge its statistics into `run`
+fn explore(prop: &str, run: &mut Run, u: &U) {
+    let thorough = run.thorough();
+    let only = run.only.clone();
+    // compiled histories (derive macro): the maximal ones cover every (w, r) of their prefixes
+    let cdepth = u.spec.histories.iter().map(|h| h.steps.len()).max().unwrap_or(0);
+    let mut citems = Vec::new();
+    for (hi, h) in u.spec.histories.iter().enumerate() {
+        if h.steps.len() == cdepth {
+            for (w, r) in pairs(h.steps.len()) {
+                citems.push(Item { hi, w, r });
+            }
+        }
+    }
+    let skip_compiled = only.as_ref().map(|k| k.starts_with("dyn:")).unwrap_or(false);
+    let skip_dyn = only.as_ref().map(|k| k.starts_with("derived:")).unwrap_or(false);
+    if !skip_compiled {
+        let st = par_items(&citems, Some(20_000), &|it: &Item| {
+            println!("VIOLATION property={prop} replay=/verif/replays/{prop}-hang.json");
+            println!("  hang in derived history {} w={} r={}", it.hi, it.w, it.r);
+        }, &|it: &Item, st: &mut Stats| explore_compiled(prop, u, it.hi, it.w, it.r, st, thorough, &only));
+        run.stats.merge(st);
+    }
+    let (dh, ddepth) = dyn_histories(thorough);
+    let mut ditems = Vec::new();
+    for (hi, h) in dh.iter().enumerate() {
+        for (w, r) in pairs(h.steps.len()) {
+            ditems.push(Item { hi, w, r });
+        }
+    }
+    if !skip_dyn {
+        let st = par_items(&ditems, Some(20_000), &|it: &Item| {
+            println!("VIOLATION property={prop} replay=/verif/replays/{prop}-hang.json");
+            println!("  hang in dynamic history {} w={} r={}", it.hi, it.w, it.r);
+        }, &|it: &Item, st: &mut Stats| explore_dyn(prop, &dh[it.hi], it.hi, it.w, it.r, st, thorough, &only));
+        run.stats.merge(st);
+    }
+    run.stats.add("derived_maximal_histories", (citems.len() / ((cdepth + 1) * (cdepth + 1)).max(1)) as u64);
+    run.stats.add("dynamic_maximal_histories", dh.len() as u64);
+    run.extra.insert("history_bounds".into(), json!({"derived_depth": cdepth, "dynamic_depth": ddepth, "placements": ["Top", "OuterV0", "OuterEvolved", "InVec"], "writer_reader_pairs": "all (w, r) in 0..=depth"}));
+}
+
+pub fn extra_for(prop: &str, run: &mut Run, u: &U) -> i32 {
+    explore(prop, run, u);
     0
+}
+
+pub fn run(tier: &str, only: Option<String>) -> i32 {
+    let mut run = Run::new("C03", tier, "model_checking", only);
+    let u = common::load();
+    explore("C03", &mut run, &u);
+    run.rule = "every maximal legal evolution history up to the depth bound x every (writer, reader) version pair x every value of the writer version x four placements; outcome compared with the semantic oracle expected(H,w,r,v) and with the model's byte-level reader; non-trivial = writer and reader versions differ".into();
+    run.assumptions = vec![
+        "legal histories only (DESIGN 5); embedded + stored-version-0 + removal excluded (DESIGN 9), executed for totality".into(),
+        "the dynamic driver calls the real AdtSerializer/AdtDeserializer as the macro expansion does; shown equal to the derived impls on the compiled histories".into(),
+    ];
+    run.finish()
 }
